@@ -300,6 +300,8 @@ func (e *Engine) oblige(kind, name, desc string, reach, cond Term, clause *Claus
 	if !e.safetyOn && clause == nil {
 		return nil
 	}
+	// a rule violation that holds on every path (condition literally false, not under any branch) needs no solver
+	trivialViolation := cond.S == "false" && reach.S == "true"
 	// obligation ids are unique within a function: a second obligation of the same name (second back edge of a
 	// loop, second path through an inlined callee) gets an ordinal
 	if e.idSeen == nil {
@@ -320,6 +322,9 @@ func (e *Engine) oblige(kind, name, desc string, reach, cond Term, clause *Claus
 	o := &Obligation{ID: e.FuncID + "#" + name, Func: e.FuncID, Kind: kind, Desc: desc, Pos: e.posString(token.NoPos),
 		Reach: reach, Cond: cond, NAssume: len(e.assumes), Expect: "unsat", Clause: clause, AssumeIdx: -1}
 	e.obls = append(e.obls, o)
+	if trivialViolation {
+		o.Result = SolveResult{Status: "sat", Solver: "trivial", Output: "the rule is violated on every path (no solver needed)"}
+	}
 	// assume-after-assert (not for conditions that are plainly false: rule violations such as a write to an
 	// immutable field must not make the rest of the function vacuous)
 	if cond.S != "false" {
